@@ -20,6 +20,7 @@ import (
 	"crypto/x509/pkix"
 	"errors"
 	"fmt"
+	"io"
 	"math/big"
 	"net"
 	"strconv"
@@ -33,7 +34,12 @@ import (
 var (
 	c21CertOnce sync.Once
 	c21Cert     tls.Certificate
+	c21Roots    *x509.CertPool
 )
+
+// c21Names: what the self-signed certificate is valid for (every host name / IP literal the generator uses).
+var c21DNS = []string{"a.test", "b.test"}
+var c21IPs = []net.IP{net.ParseIP("::1"), net.ParseIP("127.0.0.1"), net.ParseIP("2001:db8::1")}
 
 func c21ServerConfig() *tls.Config {
 	c21CertOnce.Do(func() {
@@ -43,21 +49,31 @@ func c21ServerConfig() *tls.Config {
 		}
 		tmpl := &x509.Certificate{SerialNumber: big.NewInt(1), Subject: pkix.Name{CommonName: "c21"},
 			NotBefore: time.Now().Add(-time.Hour), NotAfter: time.Now().Add(24 * time.Hour),
-			KeyUsage: x509.KeyUsageDigitalSignature, ExtKeyUsage: []x509.ExtKeyUsage{x509.ExtKeyUsageServerAuth}}
+			KeyUsage: x509.KeyUsageDigitalSignature | x509.KeyUsageCertSign, ExtKeyUsage: []x509.ExtKeyUsage{x509.ExtKeyUsageServerAuth},
+			IsCA: true, BasicConstraintsValid: true, DNSNames: c21DNS, IPAddresses: c21IPs}
 		der, err := x509.CreateCertificate(rand.Reader, tmpl, tmpl, &key.PublicKey, key)
 		if err != nil {
 			panic(err)
 		}
 		c21Cert = tls.Certificate{Certificate: [][]byte{der}, PrivateKey: key}
+		leaf, err := x509.ParseCertificate(der)
+		if err != nil {
+			panic(err)
+		}
+		c21Roots = x509.NewCertPool()
+		c21Roots.AddCert(leaf)
 	})
 	return &tls.Config{Certificates: []tls.Certificate{c21Cert}}
 }
 
 type c21ConnRec struct {
-	addr  string
-	tls   bool
-	sni   string
-	paths []string
+	addr    string
+	tls     bool
+	sni     string
+	paths   []string
+	owner   int    // caller-made HostClient that dialled it (-1: the Client)
+	first   []byte // the first bytes the peer received (up to 16)
+	gotByte bool
 }
 
 type c21Reply struct {
@@ -86,6 +102,102 @@ func c21HostPart(addr string) string {
 	return addr
 }
 
+// c21Half is one direction of an in-memory connection with an unbounded buffer: writes never block, so a TLS
+// handshake that fails on one side while the other side is still sending its flight cannot deadlock (it does on the
+// synchronous net.Pipe), and nothing depends on how fast the machine is.
+type c21Half struct {
+	mu     sync.Mutex
+	cond   *sync.Cond
+	buf    []byte
+	closed bool
+}
+
+type c21PipeConn struct {
+	rd, wr *c21Half
+	dmu    sync.Mutex
+	rdl    time.Time
+}
+
+func c21NewPipe() (net.Conn, net.Conn) {
+	a, b := &c21Half{}, &c21Half{}
+	a.cond, b.cond = sync.NewCond(&a.mu), sync.NewCond(&b.mu)
+	return &c21PipeConn{rd: a, wr: b}, &c21PipeConn{rd: b, wr: a}
+}
+
+type c21TimeoutErr struct{}
+
+func (c21TimeoutErr) Error() string   { return "c21pipe: i/o timeout" }
+func (c21TimeoutErr) Timeout() bool   { return true }
+func (c21TimeoutErr) Temporary() bool { return true }
+
+func (c *c21PipeConn) Read(p []byte) (int, error) {
+	h := c.rd
+	h.mu.Lock()
+	defer h.mu.Unlock()
+	var timer *time.Timer
+	for len(h.buf) == 0 {
+		if h.closed {
+			return 0, io.EOF
+		}
+		c.dmu.Lock()
+		dl := c.rdl
+		c.dmu.Unlock()
+		if !dl.IsZero() {
+			left := time.Until(dl)
+			if left <= 0 {
+				return 0, c21TimeoutErr{}
+			}
+			if timer == nil {
+				timer = time.AfterFunc(left, func() { h.mu.Lock(); h.cond.Broadcast(); h.mu.Unlock() })
+				defer timer.Stop()
+			} else {
+				timer.Reset(left)
+			}
+		}
+		h.cond.Wait()
+	}
+	n := copy(p, h.buf)
+	h.buf = h.buf[n:]
+	return n, nil
+}
+
+func (c *c21PipeConn) Write(p []byte) (int, error) {
+	h := c.wr
+	h.mu.Lock()
+	defer h.mu.Unlock()
+	if h.closed {
+		return 0, io.ErrClosedPipe
+	}
+	h.buf = append(h.buf, p...)
+	h.cond.Broadcast()
+	return len(p), nil
+}
+
+func (c *c21PipeConn) Close() error {
+	for _, h := range []*c21Half{c.rd, c.wr} {
+		h.mu.Lock()
+		h.closed = true
+		h.cond.Broadcast()
+		h.mu.Unlock()
+	}
+	return nil
+}
+func (c *c21PipeConn) LocalAddr() net.Addr  { return &net.TCPAddr{IP: net.IPv4(127, 0, 0, 1), Port: 1} }
+func (c *c21PipeConn) RemoteAddr() net.Addr { return &net.TCPAddr{IP: net.IPv4(127, 0, 0, 1), Port: 2} }
+func (c *c21PipeConn) SetDeadline(t time.Time) error {
+	return c.SetReadDeadline(t)
+}
+func (c *c21PipeConn) SetReadDeadline(t time.Time) error {
+	c.dmu.Lock()
+	c.rdl = t
+	c.dmu.Unlock()
+	c.rd.mu.Lock()
+	c.rd.cond.Broadcast()
+	c.rd.mu.Unlock()
+	return nil
+}
+func (c *c21PipeConn) SetWriteDeadline(time.Time) error { return nil }
+
 type c21Peeked struct {
 	net.Conn
 	r *bufio.Reader
@@ -93,12 +205,18 @@ type c21Peeked struct {
 
 func (p *c21Peeked) Read(b []byte) (int, error) { return p.r.Read(b) }
 
-func (n *c21Net) dial(addr string) (net.Conn, error) {
+func (n *c21Net) dial(addr string) (net.Conn, error) { return n.dialAs(-1, addr) }
+
+func (n *c21Net) dialFor(owner int) fasthttp.DialFunc {
+	return func(addr string) (net.Conn, error) { return n.dialAs(owner, addr) }
+}
+
+func (n *c21Net) dialAs(owner int, addr string) (net.Conn, error) {
 	if c21HostPart(addr) == "" {
 		return nil, errors.New("c21net: no such host")
 	}
-	cli, srv := net.Pipe()
-	rec := &c21ConnRec{addr: addr}
+	cli, srv := c21NewPipe()
+	rec := &c21ConnRec{addr: addr, owner: owner}
 	n.mu.Lock()
 	n.conns = append(n.conns, rec)
 	n.mu.Unlock()
@@ -116,6 +234,12 @@ func (n *c21Net) serve(rec *c21ConnRec, raw net.Conn) {
 	if err != nil {
 		return
 	}
+	n.mu.Lock()
+	rec.gotByte = true
+	if more, _ := br.Peek(min(16, br.Buffered())); len(more) > 0 {
+		rec.first = append([]byte(nil), more...)
+	}
+	n.mu.Unlock()
 	var conn net.Conn = &c21Peeked{raw, br}
 	if first[0] == 0x16 {
 		tc := tls.Server(conn, c21ServerConfig())
@@ -190,16 +314,29 @@ type c21HCSpec struct {
 }
 
 // args: cfg ("wt=0|1"), standalone host clients ("addr|tls;addr|tls"), ops ("C url,k > url,k" / "H i url,k > ..." / "L url,k")
-func c21Decode(a [][]byte) (wt bool, hcs []c21HCSpec, ops []c21Op, ok bool) {
+// cfg: "wt=0|1[ I|V|N]": WriteTimeout off/on; TLS config mode: I InsecureSkipVerify, V verification against the test
+// root with the server name derived from the address, N verification with TLSConfig.ServerName set
+func c21Decode(a [][]byte) (wt bool, mode byte, hcs []c21HCSpec, ops []c21Op, ok bool) {
 	if len(a) < 2 {
 		return
 	}
-	switch string(a[0]) {
+	mode = 'I'
+	cf := strings.Fields(string(a[0]))
+	if len(cf) == 0 || len(cf) > 2 {
+		return
+	}
+	switch cf[0] {
 	case "wt=0":
 	case "wt=1":
 		wt = true
 	default:
 		return
+	}
+	if len(cf) == 2 {
+		if len(cf[1]) != 1 || !strings.ContainsRune("IVN", rune(cf[1][0])) {
+			return
+		}
+		mode = cf[1][0]
 	}
 	if len(a[1]) > 0 {
 		for _, e := range strings.Split(string(a[1]), ";") {
@@ -249,7 +386,7 @@ func c21Decode(a [][]byte) (wt bool, hcs []c21HCSpec, ops []c21Op, ok bool) {
 	if len(ops) == 0 || len(ops) > 40 {
 		return
 	}
-	return wt, hcs, ops, true
+	return wt, mode, hcs, ops, true
 }
 
 type c21Balanced struct {
@@ -305,10 +442,11 @@ func c21Bit(b bool) []byte {
 }
 
 func c21Ops(a [][]byte) *Case {
-	wt, specs, ops, ok := c21Decode(a)
+	wt, mode, specs, ops, ok := c21Decode(a)
 	if !ok {
 		return nil
 	}
+	c21ServerConfig()
 	nw := &c21Net{script: map[string]c21Reply{}}
 	for _, op := range ops {
 		for j, h := range op.hops {
@@ -324,14 +462,30 @@ func c21Ops(a [][]byte) *Case {
 	if wt {
 		wto = 5 * time.Second
 	}
-	tcfg := &tls.Config{InsecureSkipVerify: true}
+	var tcfg *tls.Config
+	switch mode {
+	case 'I':
+		tcfg = &tls.Config{InsecureSkipVerify: true}
+	case 'V':
+		tcfg = &tls.Config{RootCAs: c21Roots}
+	case 'N':
+		tcfg = &tls.Config{RootCAs: c21Roots, ServerName: "a.test"}
+	}
+	// does cachedTLSConfig(addr) succeed?  (independent of fasthttp: net.SplitHostPort is the standard library)
+	cfgOk := func(addr string) bool {
+		if mode != 'V' || !strings.Contains(addr, ":") {
+			return true
+		}
+		_, _, err := net.SplitHostPort(addr)
+		return err == nil
+	}
 	cl := &fasthttp.Client{Dial: nw.dial, TLSConfig: tcfg, ReadTimeout: 10 * time.Second, WriteTimeout: wto,
 		MaxIdleConnDuration: time.Hour, MaxIdemponentCallAttempts: 1, NoDefaultUserAgentHeader: true}
 	var hcs []*fasthttp.HostClient
 	var lbc []fasthttp.BalancingClient
 	picked := -1
 	for i, s := range specs {
-		hc := &fasthttp.HostClient{Addr: s.addr, IsTLS: s.tls, Dial: nw.dial, TLSConfig: tcfg, ReadTimeout: 10 * time.Second,
+		hc := &fasthttp.HostClient{Addr: s.addr, IsTLS: s.tls, Dial: nw.dialFor(i), TLSConfig: tcfg, ReadTimeout: 10 * time.Second,
 			WriteTimeout: wto, MaxIdleConnDuration: time.Hour, MaxIdemponentCallAttempts: 1, NoDefaultUserAgentHeader: true}
 		hcs = append(hcs, hc)
 		lbc = append(lbc, &c21Balanced{hc: hc, idx: i, picked: &picked})
@@ -390,7 +544,7 @@ func c21Ops(a [][]byte) *Case {
 	// ---- model line and the implementation's rendering of the same observations
 	var margs [][]byte
 	for _, s := range specs {
-		margs = append(margs, B("N"), B(s.addr), c21Bit(s.tls))
+		margs = append(margs, B("N"), B(s.addr), c21Bit(s.tls), c21Bit(cfgOk(s.addr)))
 	}
 	var implParts []string
 	for range specs {
@@ -420,7 +574,8 @@ func c21Ops(a [][]byte) *Case {
 				}
 			}
 			if op.kind == 'C' {
-				margs = append(margs, B("C"), c21Bit(j == 0), scheme, host, c21Bit(h.keep))
+				margs = append(margs, B("C"), c21Bit(j == 0), scheme, host, c21Bit(h.keep),
+					c21Bit(cfgOk(c21OwnAddr(string(host), string(scheme) == "https"))))
 			} else {
 				margs = append(margs, B("H"), c21Bit(j == 0), N(hcIdx), scheme, c21Bit(h.keep))
 			}
@@ -444,7 +599,7 @@ func c21Ops(a [][]byte) *Case {
 	impl := strings.Join(implParts, ",")
 	var trace []string
 	for i, c := range nw.conns {
-		trace = append(trace, fmt.Sprintf("conn%d{%s tls=%v sni=%q %v}", i, c.addr, c.tls, c.sni, c.paths))
+		trace = append(trace, fmt.Sprintf("conn%d{%s tls=%v sni=%q first=%q %v}", i, c.addr, c.tls, c.sni, c.first, c.paths))
 	}
 	detail := impl + " :: " + strings.Join(trace, " ")
 	nontrivial := len(sents) >= 2
@@ -477,7 +632,7 @@ func c21Ops(a [][]byte) *Case {
 				if c.addr != own {
 					return Verdict{VSpec, "https-to-other-host", fmt.Sprintf("request %s%s was written to a connection dialled for %q, its own host is %q: %s", h.url, h.path, c.addr, own, detail)}
 				}
-				if c.sni != "" && !strings.EqualFold(c.sni, c21HostPart(own)) {
+				if mode != 'N' && c.sni != "" && !strings.EqualFold(c.sni, c21HostPart(own)) {
 					return Verdict{VSpec, "https-sni-other-host", fmt.Sprintf("request %s%s: TLS session was set up for server name %q, own host %q: %s", h.url, h.path, c.sni, c21HostPart(own), detail)}
 				}
 			default: // http, no scheme, or (through a plaintext HostClient only) anything else that is not https
@@ -487,6 +642,13 @@ func c21Ops(a [][]byte) *Case {
 				if c.addr != own {
 					return Verdict{VSpec, "http-to-other-host", fmt.Sprintf("request %s%s was written to a connection dialled for %q, its own host is %q: %s", h.url, h.path, c.addr, own, detail)}
 				}
+			}
+		}
+		// IsTLS => the bytes are written to a TLS connection or nothing is written: whatever a TLS HostClient
+		// sends on a connection it dialled starts with a TLS handshake record
+		for ci, c := range conns {
+			if c.owner >= 0 && specs[c.owner].tls && c.gotByte && len(c.first) > 0 && c.first[0] != 0x16 {
+				return Verdict{VSpec, "tls-hostclient-wrote-plaintext", fmt.Sprintf("HostClient{Addr:%q IsTLS:true} wrote %q in the clear on connection %d: %s", specs[c.owner].addr, c.first, ci, detail)}
 			}
 		}
 		// no connection carries both schemes
@@ -551,11 +713,14 @@ func init() {
 		Rule: "ops: 1..12 operations on ONE Client, 0..3 caller-made HostClients (any Addr/IsTLS) and an LBClient over them, on a fake network whose server side sniffs TLS (real handshake, self-signed certificate) " +
 			"and records per request the connection (dial address, TLS?, SNI) that carried it: Client.Do / Client.DoRedirects chains (1..4 hops, http<->https across hops), HostClient.Do / DoRedirects, LBClient.Do; " +
 			"URLs over schemes {http, https, HTTP, HTTPS, none, ftp, httpx} x hosts {a.test, A.test, a.test:443, a.test:80, a.test:8443, b.test, [::1], [::1]:443, [::1]:8080, 127.0.0.1} x keep-alive or close; both dialAddr paths (WriteTimeout 0 / >0); " +
+			"HostClient addresses incl. shapes no TLS server name can be derived from ([::1], ::1, 2001:db8::1, [2001:db8::1]) x TLS config {InsecureSkipVerify, verification with derived server name, verification with TLSConfig.ServerName}; " +
+			"30% of the calls are repeated 2..4 times in a row; the peer records the first bytes of every connection (TLS ClientHello or cleartext); " +
 			"addmissingport: AddMissingPort on generated addresses; non-trivial = at least two requests were written; distinct = distinct input",
 		Parallel: true,
 		Assumptions: []string{
 			"a connection counts as TLS when the first byte the server side receives is a TLS handshake record and the server handshake completes (InsecureSkipVerify client; certificate validation is crypto/tls' business)",
 			"the host a connection belongs to is the address Dial was called with; SNI, when sent, is compared with that host",
+			"whether a TLS server name can be derived from an address is decided with net.SplitHostPort (standard library) and handed to the model as the cfgOk flag of the HostClient",
 		},
 		Build: func(kind string, a [][]byte) *Case {
 			switch kind {
@@ -584,7 +749,8 @@ func init() {
 			}
 			schemes := []string{"http://", "http://", "https://", "https://", "HTTP://", "HTTPS://", "//", "ftp://", "httpx://"}
 			hosts := []string{"a.test", "a.test", "A.test", "a.test:443", "a.test:80", "a.test:8443", "b.test", "[::1]", "[::1]:443", "[::1]:8080", "127.0.0.1", "b.test:443"}
-			addrs := []string{"a.test:443", "a.test:80", "a.test:8443", "b.test:443", "b.test:80", "[::1]:443", "a.test", "[::1]"}
+			addrs := []string{"a.test:443", "a.test:80", "a.test:8443", "b.test:443", "b.test:80", "[::1]:443", "a.test", "[::1]",
+				"::1", "[2001:db8::1]", "2001:db8::1", "[2001:db8::1]:8443", "127.0.0.1", "127.0.0.1:443"}
 			hop := func(sameHost string, later bool) string {
 				h := hosts[r.Intn(len(hosts))]
 				if sameHost != "" && r.Chance(60) {
@@ -601,7 +767,7 @@ func init() {
 				return sc + h + "," + k
 			}
 			for i := 0; i < n; i++ {
-				args := [][]byte{B(fmt.Sprintf("wt=%d", r.Intn(2)))}
+				args := [][]byte{B(fmt.Sprintf("wt=%d %c", r.Intn(2), "IVVN"[r.Intn(4)]))}
 				nh := r.Intn(4)
 				var specs []string
 				for j := 0; j < nh; j++ {
@@ -628,6 +794,13 @@ func init() {
 						s += fmt.Sprintf("%d ", r.Intn(nh))
 					}
 					args = append(args, B(s+strings.Join(hs, " > ")))
+					// the same call again, 1..3 more times in a row (what the first call left behind must not change the routing)
+					if r.Chance(30) {
+						for k := 1 + r.Intn(3); k > 0 && j < nops; k-- {
+							args = append(args, B(s+strings.Join(hs, " > ")))
+							j++
+						}
+					}
 				}
 				emit("ops", args...)
 			}
